@@ -22,7 +22,7 @@ RULE = ("configuration = TCP with 1-3 resolved addresses (mixed families) / UNIX
         "(including ones abandoned in the address loop or before a failing wrap/setsockopt); the first fault-free call "
         "after a failure opens a fresh socket and answers correctly; connect() happens under connect_timeout and every "
         "sendall/recv under timeout; with TLS no I/O on the raw socket; if socket()/wrap fails for some resolved "
-        "addresses and works for a later one the call succeeds using that address. Connection-ending calls (shutdown - graceful or not - on a server that does not allow it, quit, an unknown command, incr on text, refused arguments, close) once or twice in a row, before and after ordinary calls, without any fault: the connections opened afterwards are set up like the first. Object shutdown: Client / PooledClient / HashClient over three servers (pooled or not) / the ElastiCache client (pooled or not, with and without a reconfigure_nodes()) x traffic on 0, 1 or many keys x every documented way of shutting the object down (close, quit, disconnect_all), once and again after more traffic: afterwards no socket any part of the object opened is open. Non-trivial: a fault during "
+        "addresses and works for a later one the call succeeds using that address. Refused items: a batch in which the server refuses one item (too large for it, out of memory, NOT_STORED from a proxy) and answers the others, replies delivered apart or coalesced, a fault at every socket event of the exchange and on the replies that follow the refusal. Connection-ending calls (shutdown - graceful or not - on a server that does not allow it, quit, an unknown command, incr on text, refused arguments, close) once or twice in a row, before and after ordinary calls, without any fault: the connections opened afterwards are set up like the first. Object shutdown: Client / PooledClient / HashClient over three servers (pooled or not) / the ElastiCache client (pooled or not, with and without a reconfigure_nodes()) x traffic on 0, 1 or many keys x every documented way of shutting the object down (close, quit, disconnect_all), once and again after more traffic: afterwards no socket any part of the object opened is open. Non-trivial: a fault during "
         "connection establishment, or a failure followed by a successful reconnect, or more than one resolved address.")
 MANIFEST = {
     "category": "fault_enumeration",
@@ -89,7 +89,7 @@ def check(case):
             if opened:
                 raise Violation(["socket-open-after-failed-call", kind], "socket(s) %r still open after %s" % ([s.id for s in opened], where(i, call, out)))
             own = isinstance(out[1], ValueError) and any(f["fault"].get("what") == "valueerror" for f in fired)     # the TLS layer's own ValueError, passed on
-            if not isinstance(out[1], (OSError, MemcacheUnexpectedCloseError)) and not own:
+            if not isinstance(out[1], (OSError, MemcacheUnexpectedCloseError)) and not own and not (call.get("may_raise") and isinstance(out[1], MemcacheError)):
                 raise Violation(["wrong-error", kind, type(out[1]).__name__], "socket-level fault surfaced as %r: %s" % (out[1], where(i, call, out)))
         else:
             if len(opened) > 1:
@@ -102,7 +102,7 @@ def check(case):
         loop_faults = [f for f in fired if f["fault"]["kind"] in LOOP_KINDS or (f["fault"]["kind"] == "setsockopt" and not cfg.get("keepalive"))]
         if fired and len(loop_faults) == len(fired) and len(fired) < n_addr and not case.get("unix"):
             labels.append("address-fallback")
-            if out[0] == "exc":
+            if out[0] == "exc" and not (call.get("may_raise") and isinstance(out[1], MemcacheError)):      # (the server's own refusal is not a connection failure)
                 raise Violation(["address-fallback", kind], "%d of %d resolved addresses failed at socket()/setsockopt/wrap but a later one worked, yet the call failed: %s"
                                 % (len(fired), n_addr, where(i, call, out)))
         state["prev_failed"] = out[0] == "exc"
@@ -220,6 +220,36 @@ def ending_cases(tier, seed):
                     yield d
 
 
+REFUSED = [{"op": "set_many", "values": {"a": b"1", "toolarge": b"22", "c": b"3"}, "noreply": False},
+           {"op": "set_many", "values": {"oom": b"1", "b": b"2", "nostore": b"3"}, "noreply": False},
+           {"op": "set", "key": "toolarge", "value": b"v", "noreply": False}]
+
+
+def refused_item_cases(tier, seed):
+    """the server refuses one item of a batch (too large for it, out of memory) and answers the others; a fault strikes at
+    every socket event of that exchange: no socket stays open after the failed call, the next call gets a fresh one"""
+    for conf in CONFIGS[::2] if tier == "quick" else CONFIGS:
+        for kind in ("client", "pooled", "hash"):
+            for r in REFUSED:
+                for co in (False, True):
+                    d = _base(conf, kind)
+                    d["coalesce"] = co
+                    d["calls"] = [{"op": r, "may_raise": True}] + [dict(c) for c in BASE_CALLS + FINAL]
+                    yield d
+                    dry = interpret(d)
+                    for ev_kind, nth in dry.events_by_call[0]:
+                        for f in faultlab.faults_for_event(ev_kind, nth):
+                            calls = [dict(c) for c in d["calls"]]
+                            calls[0] = dict(calls[0], faults=[f])
+                            yield dict(d, calls=calls)
+                    # the replies that follow the refusal never arrive
+                    for nth in (1, 2, 3):
+                        for what in ("eof", "timeout", "reset"):
+                            calls = [dict(c) for c in d["calls"]]
+                            calls[0] = dict(calls[0], faults=[{"kind": "recv", "nth": nth, "what": what}])
+                            yield dict(d, calls=calls)
+
+
 def history_strategy(tier):
     conf = st.sampled_from(CONFIGS)
     kind = st.sampled_from(["client", "client", "pooled", "hash"])
@@ -309,6 +339,7 @@ def check_shutdown(case):
 
 PARTS = [
     Part("object-shutdown", "enum", check_shutdown, cases=shutdown_cases, exhaustive=True),
+    Part("refused-items", "enum", check, cases=refused_item_cases, exhaustive=True),
     Part("connection-ending-calls", "enum", check, cases=ending_cases, exhaustive=True),
     Part("fault-position-sweep", "enum", check, cases=sweep_cases, exhaustive=True),
     Part("random-histories", "hyp", check, strategy=history_strategy,
